@@ -66,15 +66,15 @@ func c08Bundles() map[string][]string {
 				"{call two.show data=\"all\"}{param label: $a /}{/call}{call two.show/}" +
 				"{augmentMap($m, ['extra': 1])}{$m}{keys(['only': 1])}{['k': $a, 'j': [1, $a]]}" +
 				"{msg desc=\"d\"}Hi <b>{$a}</b> {$b}{/msg}{css $a, c}{G_ONE}" +
-				"\n{/template}\n/** @param x */\n{template .fails}\nbefore{$x}{1 < 'a'}after\n{/template}\n" +
-				// a failure two calls deep (the error text carries the chain of call sites)
-				"/** @param x */\n{template .failsdeep}\nd{call .failsmid data=\"all\"/}\n{/template}\n/** @param x */\n{template .failsmid}\nm{call two.show/}{call .fails data=\"all\"/}\n{/template}\n",
+				"\n{/template}\n/** @param x */\n{template .fails}\nbefore{$x}{1 < 'a'}after\n{/template}\n",
 			"{namespace p.two}\n/**\n * @param? label\n * @param? a\n */\n{template .show}\n<{$label ?: 'none'}|fb:{$a ?: 'na'}>{let $label: 'inner' /}{$label}\n{/template}\n",
 		},
 		"loops": {
 			"{namespace q}\n/**\n * @param l\n * @param? m\n */\n{template .main}\n{foreach $x in $l}{foreach $y in $x}{$y}{ifempty}-{/foreach}|{/foreach}after" +
 				"{for $i in range(2)}{call .row}{param i: $i /}{/call}{/for}{call .row}{param i: 9 /}{param m: $m /}{/call}{call .row data=\"all\"}{param i: 7 /}{/call}\n{/template}\n" +
-				"/**\n * @param i\n * @param? m\n * @param? l\n */\n{template .row}\n[{$i}:{$m ?: 'nm'}:{$l ? length($l) : 0}]\n{/template}\n",
+				"/**\n * @param i\n * @param? m\n * @param? l\n */\n{template .row}\n[{$i}:{$m ?: 'nm'}:{$l ? length($l) : 0}]\n{/template}\n" +
+				// data references that fail in different ways with the four data sets (missing root, access on a string, access on a list)
+				"/**\n * @param? b\n * @param? l\n */\n{template .refs}\n[{$b?.label}]{if $l}{$l[0][0].deep.er}{/if}[{$b.label.deep.er}]\n{/template}\n",
 		},
 	}
 }
